@@ -224,6 +224,9 @@ func (b *BlockWise[C]) Do(r *pool.Message, maxSzx SZX, maxMessageSize uint32, do
 		return nil, errors.New("invalid token")
 	}
 	defer b.sendingMessagesCache.Delete(r.Token().Hash())
+	// An earlier request with this token may have ended (cancelled) in the middle of a block-wise
+	// response; its partial body must not become the beginning of this request's response.
+	b.receivingMessagesCache.Delete(r.Token().Hash())
 	if r.Body() == nil {
 		return do(r)
 	}
